@@ -55,3 +55,112 @@ pub fn c13_final_rule() {
     chk!(s.enables_absolute_lock_time() == (nseq != 0xffff_ffff), "enables_absolute_lock_time is 'not final'");
     cover!(nseq == 0xffff_ffff, "final");
 }
+
+// ------------------------------------------------------------------------------------------
+// Hash-lock evaluators (hook H6b).  The compression functions are replaced by stubs that leave
+// the engine state untouched (every message then hashes to one constant digest), which keeps all
+// control flow of the evaluators reachable: with a symbolic expected digest both "matches" and
+// "does not match" are explored for every preimage length.  Decided: the evaluator never panics;
+// it reports a HashLock only for a 32-byte push and then reports exactly that push; any other
+// length and any non-push top element is an error (Script: SIZE 32 EQUALVERIFY fails); a 32-byte
+// push with another digest leaves `Dissatisfied`.
+
+#[cfg(kani)]
+mod hash_stubs {
+    //! Hash functions as arbitrary digests: feeding an engine does nothing, finishing it yields an
+    //! arbitrary value.  More general than any concrete hash function - every outcome of the
+    //! comparison with the expected digest is explored for every input.
+    use miniscript::bitcoin::hashes::{hash160, ripemd160, sha256, sha256d, Hash};
+    pub fn sha256_input(_e: &mut sha256::HashEngine, _d: &[u8]) {}
+    pub fn ripemd160_input(_e: &mut ripemd160::HashEngine, _d: &[u8]) {}
+    pub fn sha256_fin(e: sha256::HashEngine) -> sha256::Hash {
+        core::mem::forget(e);
+        sha256::Hash::from_byte_array(kani::any())
+    }
+    pub fn sha256d_fin(e: sha256::HashEngine) -> sha256d::Hash {
+        core::mem::forget(e);
+        sha256d::Hash::from_byte_array(kani::any())
+    }
+    pub fn ripemd160_fin(e: ripemd160::HashEngine) -> ripemd160::Hash {
+        core::mem::forget(e);
+        ripemd160::Hash::from_byte_array(kani::any())
+    }
+    pub fn hash160_fin(e: sha256::HashEngine) -> hash160::Hash {
+        core::mem::forget(e);
+        hash160::Hash::from_byte_array(kani::any())
+    }
+}
+
+fn hash_rule(kind: u8, n: usize) {
+    // the length is concrete per harness (0, 1, 31, 32, 33): a symbolic length makes the engine's
+    // buffer copies explode (measured: out of memory at 10 GB)
+    let mut buf = [0u8; 34];
+    let mut i = 0;
+    while i < 34 {
+        buf[i] = sym::u8_();
+        i += 1;
+    }
+    let absent = sym::bool_();
+    let mut digest = [0u8; 32];
+    i = 0;
+    while i < 32 {
+        digest[i] = sym::u8_();
+        i += 1;
+    }
+    let top = if absent { None } else { Some(&buf[..n]) };
+    let (outcome, pre) = ih::evaluate_hash(kind, top, &digest);
+    chk!(outcome != 3, "hash evaluator leaves the stack in an unexpected shape");
+    let is_push = !absent && n != 0 && !(n == 1 && buf[0] == 1);
+    if !is_push || n != 32 {
+        chk!(outcome == 2, "a missing, boolean or wrong-length preimage must be an error (SIZE 32 EQUALVERIFY fails)");
+    } else {
+        chk!(outcome == 0 || outcome == 1, "a 32-byte push either satisfies or dissatisfies the hash lock");
+    }
+    if outcome == 1 {
+        let mut same = true;
+        if let Some(p) = pre {
+            i = 0;
+            while i < 32 {
+                if p[i] != buf[i] {
+                    same = false;
+                }
+                i += 1;
+            }
+        } else {
+            same = false;
+        }
+        chk!(same, "the reported preimage is the witness element");
+    }
+    cover!(outcome == 0, "dissatisfied");
+    cover!(outcome == 1, "satisfied");
+    cover!(outcome == 2 && is_push, "wrong length");
+}
+
+macro_rules! hr {
+    ($name:ident, $k:expr, $n:expr) => {
+        #[cfg_attr(kani, kani::proof)]
+        #[cfg_attr(kani, kani::unwind(66))]
+        #[cfg_attr(kani, kani::stub(<miniscript::bitcoin::hashes::sha256::HashEngine as miniscript::bitcoin::hashes::HashEngine>::input, hash_stubs::sha256_input))]
+        #[cfg_attr(kani, kani::stub(<miniscript::bitcoin::hashes::ripemd160::HashEngine as miniscript::bitcoin::hashes::HashEngine>::input, hash_stubs::ripemd160_input))]
+        #[cfg_attr(kani, kani::stub(miniscript::bitcoin::hashes::sha256::from_engine, hash_stubs::sha256_fin))]
+        #[cfg_attr(kani, kani::stub(miniscript::bitcoin::hashes::sha256d::from_engine, hash_stubs::sha256d_fin))]
+        #[cfg_attr(kani, kani::stub(miniscript::bitcoin::hashes::ripemd160::from_engine, hash_stubs::ripemd160_fin))]
+        #[cfg_attr(kani, kani::stub(miniscript::bitcoin::hashes::hash160::from_engine, hash_stubs::hash160_fin))]
+        pub fn $name() { hash_rule($k, $n) }
+    };
+}
+// @h c13_hash_rule_* timeout=1800 mem=10 covers=any
+hr!(c13_hash_rule_sha256_0, 0, 0);
+hr!(c13_hash_rule_sha256_1, 0, 1);
+hr!(c13_hash_rule_sha256_31, 0, 31);
+hr!(c13_hash_rule_sha256_32, 0, 32);
+hr!(c13_hash_rule_sha256_33, 0, 33);
+hr!(c13_hash_rule_hash256_31, 1, 31);
+hr!(c13_hash_rule_hash256_32, 1, 32);
+hr!(c13_hash_rule_hash256_33, 1, 33);
+hr!(c13_hash_rule_ripemd160_31, 2, 31);
+hr!(c13_hash_rule_ripemd160_32, 2, 32);
+hr!(c13_hash_rule_ripemd160_33, 2, 33);
+hr!(c13_hash_rule_hash160_31, 3, 31);
+hr!(c13_hash_rule_hash160_32, 3, 32);
+hr!(c13_hash_rule_hash160_33, 3, 33);
